@@ -40,14 +40,14 @@ CostCheck(e, b) ==
   IF ~InDomain THEN ""
   ELSE IF e.status = "INFEASIBLE" THEN (IF FeasibleRouting(b) THEN "Infeasible.but_feasible_flow_exists" ELSE "")
   ELSE IF e.status = "MAX_ITER" THEN ""
-  ELSE IF e.status # "OPTIMAL" THEN "Return.unexpected_status"
+  ELSE IF e.status \notin {"OPTIMAL", "FEASIBLE"} THEN "Return.unexpected_status"       \* FEASIBLE: stopped by an iteration limit
   ELSE LET f == PairFlow(e.flows) x == Realise(n, A, f) IN
        IF ~WellFormed(e.flows) THEN "Flow.malformed_or_non_positive_entry"
        ELSE IF ~PairFeasible(n, A, f) THEN "Flow.exceeds_capacity"
        ELSE IF \E v \in Nodes(n) : -Net(n, f, v) # b[v + 1] THEN "Flow.supplies_not_met_exactly"
        ELSE IF ~e.exact THEN "Cost.not_representable"
        ELSE IF e.cost # ArcCost(A, x) THEN "Cost.objective_is_not_cost_of_the_flow"
-       ELSE IF ~NoNegCycle(n, ResArcs(A, x)) THEN "Cost.not_minimum(negative_residual_cycle)"
+       ELSE IF e.status = "OPTIMAL" /\ ~NoNegCycle(n, ResArcs(A, x)) THEN "Cost.not_minimum(negative_residual_cycle)"
        ELSE ""
 \* assignment: matrix C (rows x cols), assignment seq with -1; optimum by enumeration of injections of the smaller side
 Rws == Len(T.matrix)
